@@ -26,6 +26,14 @@ SIM_ASSUME = ["sim streams replace sockets (StreamType template seam); TLS/WebSo
               "bounds: deviations <= D per scenario as listed in coverage.jobs[].notes.scenarios"]
 
 CHECKS = {
+    "C04": {"jobs": [{"name": "simnet", "target": "simnet", "args": ["--set", "C04"], "thorough_args": ["--thorough"]}], "assumptions": SIM_ASSUME},
+    "C05": {"jobs": [{"name": "simnet", "target": "simnet", "args": ["--set", "C05"], "thorough_args": ["--thorough"]}], "assumptions": SIM_ASSUME},
+    "C09": {"jobs": [{"name": "simnet", "target": "simnet", "args": ["--set", "C09"], "thorough_args": ["--thorough"]}], "assumptions": SIM_ASSUME},
+    "C10": {"jobs": [{"name": "simnet", "target": "simnet", "args": ["--set", "C10"], "thorough_args": ["--thorough"]}], "assumptions": SIM_ASSUME},
+    "C12": {"jobs": [{"name": "simnet", "target": "simnet", "args": ["--set", "C12"], "thorough_args": ["--thorough"]}], "assumptions": SIM_ASSUME},
+    "C13": {"jobs": [{"name": "simnet", "target": "simnet", "args": ["--set", "C13"], "thorough_args": ["--thorough"]}], "assumptions": SIM_ASSUME},
+    "C14": {"jobs": [{"name": "simnet", "target": "simnet", "args": ["--set", "C14"], "thorough_args": ["--thorough"]}], "assumptions": SIM_ASSUME},
+    "C15": {"jobs": [{"name": "simnet", "target": "simnet", "args": ["--set", "C15"], "thorough_args": ["--thorough"]}], "assumptions": SIM_ASSUME},
     "C01": {"jobs": [{"name": "simnet", "target": "simnet", "args": ["--set", "C01"], "thorough_args": ["--thorough"]}], "assumptions": SIM_ASSUME},
     "C02": {"jobs": [{"name": "simnet", "target": "simnet", "args": ["--set", "C02"], "thorough_args": ["--thorough"]}], "assumptions": SIM_ASSUME},
     "C03": {"jobs": [{"name": "simnet", "target": "simnet", "args": ["--set", "C03"], "thorough_args": ["--thorough"]}], "assumptions": SIM_ASSUME},
@@ -37,10 +45,12 @@ CHECKS = {
     ], "assumptions": ["window of 14 packet ids (1..7, 65529..65535) with the rest of the id space uniformly free or uniformly allocated",
                        "single-threaded use, as the library requires"]},
     "C11": {"jobs": [
+        {"name": "simultaneous-failures", "target": "simnet", "args": ["--set", "C11"], "thorough_args": ["--thorough"]},
         {"name": "mutex-histories", "target": "c11_mutex", "quick_args": ["--depth", "10", "--maxreq", "4"],
          "thorough_args": ["--depth", "13", "--maxreq", "5"], "timeout_thorough": 3000},
     ], "assumptions": ["all handlers run on one io_context thread (the library is not thread-safe)"]},
     "C16": {"jobs": [
+        {"name": "public-api", "target": "simnet", "args": ["--set", "C16"], "thorough_args": ["--thorough"]},
         {"name": "validators", "target": "c16_validators", "thorough_args": ["--thorough"]},
     ], "assumptions": ["reference recogniser transcribed from Unicode Table 3-7 and MQTT 5 sections 1.5.4, 4.7, 4.8.2"]},
     "C17": {"jobs": [
